@@ -132,6 +132,8 @@ def mutate(rng, s):
     return bytes(b)
 
 
+SPECIAL_CHARS = ["\ufeff", "\u200b", "\u2028", "\u2029", "\u00a0", "\u0085", "\ufffd", "\ue000", "\ufdd0",
+                 "\uffff", "\U000e0001", "\U0010fffd", "\u0000", "\u0009", "\u000a", "\u000d", "\u0020", "\u007f"]
 BAD_UTF8 = [b"\x80", b"\xc3", b"\xe2\x82", b"\xc0\xaf", b"\xed\xa0\x80", b"\xf5\x80\x80\x80",
             b"\xf4\x90\x80\x80", b"a\xffb", b"\xe0\x80\x80", b"\xf0\x80\x80\x80"]
 
@@ -260,6 +262,16 @@ def sample_for_kind(rng, kind):
 # --------------------------------------------------------------------------
 # streams
 
+def special_ctor_lines(rng, kind):
+    for c in SPECIAL_CHARS:
+        cb = c.encode("utf-8")
+        yield "ctor %s %s" % (kind, hx(cb))
+        for base in (sample_for_kind(rng, kind), "http://example.org/", "foo/bar", "a"):
+            bb = base.encode("utf-8") if isinstance(base, str) else base
+            yield "ctor %s %s" % (kind, hx(cb + bb))
+            yield "ctor %s %s" % (kind, hx(bb + cb))
+
+
 def stream_ctor(rng, tier, automata):
     n_rand = 300 if tier == "quick" else 5000
     k = 3 if tier == "quick" else 4
@@ -282,6 +294,10 @@ def stream_ctor(rng, tier, automata):
         for b in BAD_UTF8:
             yield "ctor %s %s" % (kind, hx(b))
             yield "ctor %s %s" % (kind, hx(b"a" + b + b"/b"))
+        # characters that text-handling code likes to treat specially (byte order mark, zero-width
+        # and line separators, replacement character, private use, non-characters, NUL/controls):
+        # in front of, behind and alone around valid and invalid samples, through every route in
+        yield from special_ctor_lines(rng, kind)
 
 
 def stream_parts(rng, tier):
@@ -776,6 +792,7 @@ def stream_routes(rng, tier):
             yield "ctor %s %s" % (kind, hx(mutate(rng, s)))
         for b in BAD_UTF8:
             yield "ctor %s %s" % (kind, hx(b))
+        yield from special_ctor_lines(rng, kind)
     # comparison with plain text / bytes is comparison of the text (never of decoded or normalised forms)
     seq = {"uri": ["s:a", "s:%61", "s:a/./b", "S:a"], "uriRef": ["a", "%61", "./a", "a/../a", ""],
            "uriPath": ["a", "%61", "a/.", "/a", "", "abcdefgh"], "uriAuthority": ["h", "H", "%68", "u@h:1"],
